@@ -21,6 +21,8 @@ var verifIndepQueries = []string{
 	`foo > bar`,
 	`foo{a="x"} * on(a) foo`,
 	`foo{b="1"} - on(a) group_left foo{a="x"}`,
+	`max by (b) (foo)`,
+	`min without (a) (foo)`,
 }
 
 // VerifH11p: whole pipeline: the result does not depend on the number of shards
@@ -63,8 +65,12 @@ func VerifH11p() {
 // grows, query B on the same engine equals B on a fresh engine; A's result is unchanged
 // afterwards (also after closing and after buffer reuse by B).
 func VerifH20p() {
-	qa := verifIndepQueries[sym.Choice("queryA", sym.Tier(2, 5))]
-	qb := verifIndepQueries[sym.Choice("queryB", sym.Tier(3, 5))]
+	withOptsA := sym.Choice("optsA", 2) == 1
+	qa, qb := verifIndepQueries[0], verifIndepQueries[0]
+	if !withOptsA {
+		qa = verifIndepQueries[sym.Choice("queryA", sym.Tier(2, 5))]
+		qb = verifIndepQueries[sym.Choice("queryB", sym.Tier(3, 5))]
+	}
 	data := verifData1()
 	start := sym.Int64("start", 0, verifR)
 	step := sym.Int64("step", 1, verifR)
@@ -73,7 +79,18 @@ func VerifH20p() {
 	sym.SetGOMAXPROCS(4)
 	e := verifEngine(logicalplan.DefaultOptimizers, lookback)
 	store := &stub.Queryable{Ser: data}
-	ra := verifExecRange(e, store, qa, start, end, step)
+	// A may carry per-query options (its own lookback delta): they must not outlive A
+	var optsA *promql.QueryOpts
+	if withOptsA {
+		optsA = &promql.QueryOpts{LookbackDelta: sym.DurMs(sym.Int64("lookbackA", 1, verifR))}
+	}
+	qA, err := e.NewRangeQuery(store, optsA, qa, sym.TimeMs(start), sym.TimeMs(end), sym.DurMs(step))
+	sym.Assert("C20/history/created", err == nil)
+	if err != nil {
+		sym.Stop()
+	}
+	ra := qA.Exec(context.Background())
+	qA.Close()
 	// snapshot of A's result
 	var snap [][]promql.Point
 	if m, ok := ra.Value.(promql.Matrix); ok {
